@@ -174,6 +174,33 @@ unsafe impl<'a, R> LendJoin for DynLend<'a, R> {
     }
 }
 
+/// a lending member that reports itself unconstrained, as the real `MaybeJoin` does (the erased member hides that
+/// static answer): used when every member of a looked-up tuple is optional
+pub struct UncLend<'a>(DynLend<'a, Rep>);
+
+// SAFETY: forwards to the erased member.
+#[nougat::gat]
+unsafe impl<'a> LendJoin for UncLend<'a> {
+    type Mask = DynMask<'a>;
+    type Type<'next> = Item;
+    type Value = SeqGet<'a>;
+
+    unsafe fn open(self) -> (Self::Mask, Self::Value) {
+        ((self.0).0)()
+    }
+
+    unsafe fn get<'next>(v: &'next mut Self::Value, id: Index) -> Self::Type<'next> {
+        v(id)
+    }
+
+    fn is_unconstrained() -> bool {
+        true
+    }
+}
+
+// SAFETY: wraps a `DynLend<_, Rep>`.
+unsafe impl<'a> RepeatableLendGet for UncLend<'a> {}
+
 // SAFETY: a `DynLend<_, Rep>` is only built by the `LR` arm of `erase!`, which requires the wrapped
 // member to be `RepeatableLendGet` itself.
 unsafe impl<'a> RepeatableLendGet for DynLend<'a, Rep> {}
@@ -1241,21 +1268,39 @@ fn run_par(ms: Vec<DynPar<'_>>, arg: usize) -> Out {
     enc_rows(rows)
 }
 
-fn run_get(ms: Vec<DynLendR<'_>>, e: Entity, ents: &Entities<'_>) -> Out {
-    let r: Option<Vec<Item>> = with_tuple!(ms, t => {
-        let mut it = t.lend_join();
-        let r = it.get(e, ents).map(|x| x.into_items());
-        r
-    });
+fn run_get(ms: Vec<DynLendR<'_>>, e: Entity, ents: &Entities<'_>, all_optional: bool) -> Out {
+    let r: Option<Vec<Item>> = if all_optional {
+        let ms: Vec<UncLend<'_>> = ms.into_iter().map(UncLend).collect();
+        with_tuple!(ms, t => {
+            let mut it = t.lend_join();
+            let r = it.get(e, ents).map(|x| x.into_items());
+            r
+        })
+    } else {
+        with_tuple!(ms, t => {
+            let mut it = t.lend_join();
+            let r = it.get(e, ents).map(|x| x.into_items());
+            r
+        })
+    };
     enc_lookup(r)
 }
 
-fn run_get_unchecked(ms: Vec<DynLendR<'_>>, idx: Index) -> Out {
-    let r: Option<Vec<Item>> = with_tuple!(ms, t => {
-        let mut it = t.lend_join();
-        let r = it.get_unchecked(idx).map(|x| x.into_items());
-        r
-    });
+fn run_get_unchecked(ms: Vec<DynLendR<'_>>, idx: Index, all_optional: bool) -> Out {
+    let r: Option<Vec<Item>> = if all_optional {
+        let ms: Vec<UncLend<'_>> = ms.into_iter().map(UncLend).collect();
+        with_tuple!(ms, t => {
+            let mut it = t.lend_join();
+            let r = it.get_unchecked(idx).map(|x| x.into_items());
+            r
+        })
+    } else {
+        with_tuple!(ms, t => {
+            let mut it = t.lend_join();
+            let r = it.get_unchecked(idx).map(|x| x.into_items());
+            r
+        })
+    };
     enc_lookup(r)
 }
 
@@ -1374,10 +1419,11 @@ pub fn op_join(world: &mut World, xs: &mut St, p: &[i64]) -> Out {
             run_par(ms, arg as usize)
         }
         Flavour::LR => {
+            let all_optional = mems.iter().all(|m| matches!(m, Mem::Maybe(_)));
             let ms: Vec<DynLendR<'_>> = mems.iter().map(|m| build_lr(m, &mut cx)).collect();
             match lookup_entity {
-                Some(e) => run_get(ms, e, &ents),
-                None => run_get_unchecked(ms, arg as Index),
+                Some(e) => run_get(ms, e, &ents, all_optional),
+                None => run_get_unchecked(ms, arg as Index, all_optional),
             }
         }
     }
